@@ -379,6 +379,10 @@ func rankingRecognised(l *natLoop) (string, bool) {
 						if ph, ok := call.Call.Args[0].(*ssa.Phi); ok && ph.Block() == l.head && shrinkingPhi(l, ph) {
 							return "exit test compares len of a slice that strictly shrinks on every back edge", true
 						}
+						// len(*cell) where every iteration stores append(*cell, …) back into the cell
+						if ld, ok := call.Call.Args[0].(*ssa.UnOp); ok && invariantIn(l, other, 0) && growingCell(l, ld.X) {
+							return "exit test compares the length of a slice variable that grows by an append on every iteration with a loop-invariant bound", true
+						}
 					}
 				}
 			}
@@ -513,6 +517,48 @@ func growsOnEveryBackEdge(l *natLoop, ph *ssa.Phi) bool {
 		}
 	}
 	return n > 0
+}
+
+// growingCell: every back-edge source is dominated by a block of the loop that stores
+// append(load(cell), …) into cell.
+func growingCell(l *natLoop, cell ssa.Value) bool {
+	var grow []*ssa.BasicBlock
+	for b := range l.body {
+		for _, ins := range b.Instrs {
+			st, ok := ins.(*ssa.Store)
+			if !ok || st.Addr != cell {
+				continue
+			}
+			call, ok := st.Val.(*ssa.Call)
+			if !ok {
+				continue
+			}
+			if bi, ok := call.Call.Value.(*ssa.Builtin); !ok || bi.Name() != "append" || len(call.Call.Args) < 2 {
+				continue
+			}
+			if ld, ok := call.Call.Args[0].(*ssa.UnOp); ok && ld.X == cell {
+				grow = append(grow, b)
+			}
+		}
+	}
+	if len(grow) == 0 {
+		return false
+	}
+	for _, p := range l.head.Preds {
+		if !l.body[p] {
+			continue
+		}
+		ok := false
+		for _, g := range grow {
+			if g == p || g.Dominates(p) {
+				ok = true
+			}
+		}
+		if !ok {
+			return false
+		}
+	}
+	return true
 }
 
 func shrinkingPhi(l *natLoop, ph *ssa.Phi) bool {
